@@ -70,8 +70,20 @@ def scenarios(tier: str) -> list[tuple]:
                 pairs2 = [("A1R0", "A1R2"), ("A1A1", "R2R2"), ("R2A1", "A1R0"), ("A1A1", "A1R2"),
                           ("R0R3", "A2"), ("R2R2", "A2"), ("A1R2", "R0R3")]
                 for a, b in pairs2[:4 if tier == "quick" else None]:
-                    for split in split_specs(tier, (a, b))[:2 if tier == "quick" else None]:
-                        out.append((lock, buf, warm, (a, b), split, b2))
+                    if tier == "quick":
+                        for split in split_specs(tier, (a, b))[:2]:
+                            out.append((lock, buf, warm, (a, b), split, b2))
+                        continue
+                    # thorough: bound 3 with the boundary cut set, bound 2 with every byte offset
+                    # (every byte offset only with a warm cache: the cold variants differ in the
+                    # first read only, which the boundary cuts cover)
+                    coarse = split_specs("quick", (a, b))
+                    for split in coarse:
+                        out.append((lock, buf, warm, (a, b), split, 3))
+                    if warm:
+                        for split in split_specs(tier, (a, b)):
+                            if split not in coarse:
+                                out.append((lock, buf, warm, (a, b), split, 2))
                 tris = [("A1", "A1", "R0"), ("A1", "A2", "R2"), ("A1", "A1", "A1"), ("A2", "R2", "R3")]
                 for tri in tris[:2 if tier == "quick" else None]:
                     out.append((lock, buf, warm, tri, None, 1 if tier == "quick" else 2))
